@@ -562,6 +562,7 @@ def diagnostics_and_inputs(ctx: Ctx, py: PyProgram) -> None:
 DATA_PATH = (
     ("pce500/memory.py", "PCE500Memory", ("read_byte", "write_byte"), ("self.external_memory",)),
     ("pce500/memory_bus.py", "MemoryBus", ("read", "write"), ()),
+    ("pce500/keyboard_handler.py", "PCE500KeyboardHandler", ("handle_register_read",), ()),
 )
 
 # process-wide containers that exist today, each read: why its content cannot depend on what ran before
@@ -598,7 +599,7 @@ def data_path_memos(ctx: Ctx, py: PyProgram) -> None:
                 attr = what.split("`")[1] if "`" in what else "?"
                 ctx.violation("C07.4/data-path-memo", key_of(rel, f"{cls}.{e}", f"answer taken from {attr}"),
                               what + " - the same access gives a different result depending on what was accessed before", f"{rel}:{ln}")
-    ctx.instance("C07.4/data-path-memo", "bus access entry points (memory and overlay bus, reads and writes) followed through their helpers: nothing stored by an earlier access reaches a return/yield", n, 4)
+    ctx.instance("C07.4/data-path-memo", "bus access entry points (memory, overlay bus, keyboard registers) followed through their helpers: nothing stored by an earlier access reaches a return/yield", n, 5)
 
 
 def process_state(ctx: Ctx, py: PyProgram) -> None:
